@@ -24,12 +24,19 @@ if rc != 0:
 crates = {}
 for cr, b in sorted(bins):
     crates.setdefault(cr, []).append(b)
+failed = []
 for cr, bs in crates.items():
     cmd = ['cargo', 'build', '-q', '-p', cr]
     for b in bs:
         cmd += ['--bin', b]
     rc = subprocess.call(cmd, cwd='harness')
     if rc != 0:
-        print('setup: harness build failed for', cr, bs); sys.exit(rc)
+        # one broken binary must not keep the others from being built: retry one by one
+        for b in bs:
+            if subprocess.call(['cargo', 'build', '-q', '-p', cr, '--bin', b], cwd='harness') != 0:
+                failed.append(f'{cr}/{b}')
+if failed:
+    # every check rebuilds what it needs and reports its own build failure; setup itself only warms the build
+    print('setup: harness binaries that did not build (their checks will report it):', ', '.join(failed))
 print('setup-done')
 PY
